@@ -88,15 +88,16 @@ theorem getElem?_map_idxOf {l : List Nat} {n : Nat} (g : Nat → Leg) (tail : Li
 
 /-- `contract_bra_to_ket_and_blocks_ignore_one_leg` on the tensor delivered by
 `contract_all_but_one_neighbour_block_to_ket` (two-layer blocks) -/
-theorem braIgnore_general (ketNode braNode : Node) (next : Nat) (f : Trafo) (bs : List (Leg × Leg))
+theorem braIgnore_general (x y z : Leg) (q mkB : Nat → Leg) (ketNode braNode : Node) (next : Nat) (f : Trafo)
+    (bs : List (Leg × Leg))
     (hK : ketNode.nbrs.Nodup) (hB : braNode.nbrs.Nodup) (hnext : next ∈ ketNode.nbrs)
     (hperm : braNode.nbrs.Perm (ketNode.nbrs.map f)) :
-    contractBraToKetAndBlocksIgnoreOneLeg (braT braNode)
-        ⟨[Leg.ketNb next, Leg.ketPhys] ++ (ketNode.nbrs.filter (· ≠ next)).map Leg.blkBra, bs⟩
+    contractBraToKetAndBlocksIgnoreOneLeg (T.fresh (braNode.nbrs.map mkB ++ [z]))
+        ⟨[x, y] ++ (ketNode.nbrs.filter (· ≠ next)).map q, bs⟩
         braNode ketNode next f =
-      some ⟨[Leg.ketNb next, Leg.braNb (f next)],
-            bs ++ ((ketNode.nbrs.filter (· ≠ next)).map (fun n => (Leg.blkBra n, Leg.braNb (f n)))
-                    ++ [(Leg.ketPhys, Leg.braPhys)])⟩ := by
+      some ⟨[x, mkB (f next)],
+            bs ++ ((ketNode.nbrs.filter (· ≠ next)).map (fun n => (q n, mkB (f n)))
+                    ++ [(y, z)])⟩ := by
   -- consequences of the permutation hypothesis
   have hmemB : ∀ n ∈ ketNode.nbrs, f n ∈ braNode.nbrs := fun n hn =>
     hperm.mem_iff.2 (List.mem_map.2 ⟨n, hn, rfl⟩)
@@ -129,22 +130,22 @@ theorem braIgnore_general (ketNode braNode : Node) (next : Nat) (f : Trafo) (bs 
   clear hloop
   generalize A ++ B = F at hF hFnd hFmem ⊢
   -- legs picked on both sides
-  have pa : pick ([Leg.ketNb next, Leg.ketPhys] ++ F.map Leg.blkBra)
-      (F.map (fun n => F.idxOf n + 2) ++ [1]) = some (F.map Leg.blkBra ++ [Leg.ketPhys]) := by
+  have pa : pick ([x, y] ++ F.map q)
+      (F.map (fun n => F.idxOf n + 2) ++ [1]) = some (F.map q ++ [y]) := by
     apply pick_append
     · apply pick_map
       intro n hn
-      have := getElem?_map_idxOf Leg.blkBra [] hn
+      have := getElem?_map_idxOf q [] hn
       simpa using this
     · exact pick_single _ _ _ (by simp)
-  have pb : pick (braT braNode).legs (F.map (fun n => braNode.nbrs.idxOf (f n)) ++ [braNode.nn])
-      = some (F.map (fun n => Leg.braNb (f n)) ++ [Leg.braPhys]) := by
+  have pb : pick (T.fresh (braNode.nbrs.map mkB ++ [z])).legs (F.map (fun n => braNode.nbrs.idxOf (f n)) ++ [braNode.nn])
+      = some (F.map (fun n => mkB (f n)) ++ [z]) := by
     apply pick_append
     · apply pick_map
       intro n hn
-      exact getElem?_map_idxOf Leg.braNb [Leg.braPhys] (hmemB n ((hFmem n).1 hn).1)
+      exact getElem?_map_idxOf mkB [z] (hmemB n ((hFmem n).1 hn).1)
     · apply pick_single
-      simp [braT, T.fresh, Node.nn_eq]
+      simp [T.fresh, Node.nn_eq]
   have nda : (F.map (fun n => F.idxOf n + 2) ++ [1]).Nodup := by
     rw [List.nodup_append]
     refine ⟨nodup_map_of_inj_on _ _ hFnd (fun x hx y hy e => idxOf_inj hx hy (by omega)), by simp, ?_⟩
@@ -169,7 +170,7 @@ theorem braIgnore_general (ketNode braNode : Node) (next : Nat) (f : Trafo) (bs 
   rw [tensordot_eq _ _ _ _ _ _ (by simp) nda ndb pa pb]
   -- remaining legs
   have ra : remaining (F.map (fun n => F.idxOf n + 2) ++ [1]) 0
-      ([Leg.ketNb next, Leg.ketPhys] ++ F.map Leg.blkBra) = [Leg.ketNb next] := by
+      ([x, y] ++ F.map q) = [x] := by
     rw [remaining_singleton _ 0 _ 0 (by simp)]
     · simp
     · intro i hi hne
@@ -182,16 +183,16 @@ theorem braIgnore_general (ketNode braNode : Node) (next : Nat) (f : Trafo) (bs 
         rw [hFnd.idxOf_getElem]
         omega
     · simp
-  have rb : remaining (F.map (fun n => braNode.nbrs.idxOf (f n)) ++ [braNode.nn]) 0 (braT braNode).legs
-      = [Leg.braNb (f next)] := by
+  have rb : remaining (F.map (fun n => braNode.nbrs.idxOf (f n)) ++ [braNode.nn]) 0 (T.fresh (braNode.nbrs.map mkB ++ [z])).legs
+      = [mkB (f next)] := by
     have hj := List.idxOf_lt_length_of_mem (hmemB next hnext)
-    rw [remaining_singleton _ 0 _ (braNode.nbrs.idxOf (f next)) (by simp [braT, T.fresh]; omega)]
-    · have := getElem?_map_idxOf Leg.braNb [Leg.braPhys] (hmemB next hnext)
+    rw [remaining_singleton _ 0 _ (braNode.nbrs.idxOf (f next)) (by simp [T.fresh]; omega)]
+    · have := getElem?_map_idxOf mkB [z] (hmemB next hnext)
       rw [List.getElem?_eq_getElem (by simp; omega)] at this
-      simpa [braT, T.fresh] using this
+      simpa [T.fresh] using this
     · intro i hi hne
       simp only [Nat.zero_add, List.mem_append, List.mem_map, List.mem_singleton]
-      simp only [braT, T.fresh, List.length_append, List.length_map, List.length_cons, List.length_nil] at hi
+      simp only [T.fresh, List.length_append, List.length_map, List.length_cons, List.length_nil] at hi
       by_cases h1 : i = braNode.nbrs.length
       · right; rw [Node.nn_eq]; exact h1
       · left
@@ -205,6 +206,6 @@ theorem braIgnore_general (ketNode braNode : Node) (next : Nat) (f : Trafo) (bs 
       have hn' := (hFmem n).1 hn
       exact hn'.2 (hinj n hn'.1 next hnext (idxOf_inj (hmemB n hn'.1) (hmemB next hnext) e))
   rw [ra, rb, List.zip_append (by simp), zip_map_same]
-  simp [braT, T.fresh]
+  simp [T.fresh]
 
 end Ptn.C04
